@@ -57,9 +57,10 @@ let run_est = function
      | None -> print_endline "none"
      | Some r ->
        let ev = r.er_events in
-       let cnt x = Stdlib.List.length (Stdlib.List.filter (fun e -> e = x) ev) in
+       let cnt x = Stdlib.List.length (Stdlib.List.filter (fun e -> match e, x with
+           | EvCount _, EvCount _ -> true | EvRefine, EvRefine -> true | EvDraw, EvDraw -> true | _ -> false) ev) in
        let rec after = function [] -> 0 | EvRefine :: rest -> Stdlib.List.length rest | _ :: rest -> after rest in
-       Printf.printf "%s %d %d %d %d 1\n" (b01 r.er_ok) (iz r.er_iters) (cnt EvCount) (cnt EvRefine) (after ev))
+       Printf.printf "%s %d %d %d %d 1\n" (b01 r.er_ok) (iz r.er_iters) (cnt (EvCount BinNums.Z0)) (cnt EvRefine) (after ev))
   | _ -> print_endline "?"
 
 (* ---------- rig / cmp ---------- *)
